@@ -260,6 +260,63 @@ def run(tier):
                                  "filename": fname}, out[-1])
     R.set("long_digit_run_inputs", long_runs)
 
+    # (a2) every code point of Latin-1 / Latin Extended-A and a sample of the
+    # rest (controls, unassigned, non-characters, astral) once in each of eight
+    # positions of a small program: only ParseError may come out
+    cps = list(range(0, 0x180)) + [0x378, 0x2028, 0x2029, 0x200B, 0xFEFF, 0xFFFE, 0xFFFF, 0xD7FF, 0xE000,
+                                   0x10FFFF, 0x1F600, 0x0663, 0xFF15, 0x1D7D3, 0x2160]
+    frames = ["%sint x = 1;", "int %s x = 1;", "int x%s = 1;", "int x = 1%s;", "int x = 1;%s",
+              "char *s = \"a\" %s \"b\";", "#line 3 \"f.c\" %s\nint y;", "#pragma p\n%s\nint y;"]
+    cp_runs = 0
+    for cp in cps:
+        ch = chr(cp)
+        for fr in frames:
+            t = fr % ch
+            out = core.parse_outcome(t, "f.c")
+            cp_runs += 1
+            merge({out[0]: 1})
+            sig = oracle(out, "f.c", t)
+            if sig is not None:
+                R.fail(sig, {"text": t, "filename": "f.c", "code_point": "U+%04X" % cp}, out[-1])
+    R.set("code_point_inputs", cp_runs)
+
+    # (a3) long FLAT inputs: RecursionError is tolerated for inputs NESTED
+    # deeper than the recursion limit only; k repetitions of an item that the
+    # grammar does not nest (k well above the limit of 3000 every harness
+    # process runs with) must parse or raise ParseError
+    K = 4000 if quick else 20000
+    flat = {
+        "line-directives": "#line 1\n" * K + "int x;",
+        "linemarkers": "# 1 \"f.c\" 1\n" * K + "int x;",
+        "pragmas": "#pragma p\n" * K,
+        "bare-pragmas": "#pragma\n" * K,
+        "directives-in-body": "void f(void){\n" + "#line 2\n#pragma q\n" * K + "}",
+        "directives-at-end": "int x;\n" + "# 7 \"g.h\"\n" * K,
+        "declarations": "int x;" * K,
+        "empty-statements": "void f(void){" + ";" * K + "}",
+        "statements": "void f(int a){" + "a++;" * K + "}",
+        "init-items": "int a[] = {" + "1," * K + "};",
+        "call-args": "int x = f(" + "1," * K + "1);",
+        "enumerators": "enum E {" + ",".join("A%d" % i for i in range(K)) + "};",
+        "members": "struct S {" + "int m;" * K + "};",
+        "strings": "char *s = " + "\"a\" " * K + ";",
+        "binary-chain": "int x = " + "1+" * K + "1;",
+        "comma-chain": "void f(int a){ a" + ",a" * K + "; }",
+        "declarators": "int " + ",".join("v%d" % i for i in range(K)) + ";",
+        "params": "void f(" + ",".join("int p%d" % i for i in range(K)) + ");",
+        "postfix-chain": "int x = a" + "[1]" * K + ";",
+        "blank-lines": "\n \t\n" * K + "int x;",
+    }
+    for name, t in flat.items():
+        out = core.parse_outcome(t, "f.c")
+        merge({out[0]: 1})
+        sig = oracle(out, "f.c", t)
+        if out[0] == "rec":
+            sig = "RecursionError-on-flat-input:" + name
+        if sig is not None:
+            R.fail(sig, {"text": t, "filename": "f.c", "family": name, "k": K}, out[-1] if len(out) > 1 else "RecursionError")
+    R.set("long_flat_inputs", len(flat))
+
     # (b) 1-edit neighbourhood of the small corpus files
     edits_run = 0
     maxtok = 60 if quick else 800
